@@ -158,7 +158,7 @@ ROUND7 = {
  "C10": "Also: a diamond of four real packages in which importers declare or not constants typed with the owner's enum (5 import shapes, names sorting before/after the owner, 0..3 owner members): the enum exists iff its own package declares constants, with exactly those (HC10_foreignTypedConstants; a genuine defect found there was repaired).",
  "C11": "Also: module paths of 1..4 elements, analysed package at 3 depths, union declared in the tree-root package, a parent, a sibling or a child, reached directly or through an intermediate package (HC11_unionAcrossTree; sibling modules sharing a partial element name are outside the class).",
  "C13": "Also: method handlers for every combination of holder kind (value/pointer parameter, local value, local pointer) and receiver kind, 1..2 controllers (HC13_methodReceivers).",
- "C14": "Form field names are any printable byte (no quote, no backslash) followed by a concrete suffix; fmt.Sprintf formats containing symbolic bytes are modelled (each symbolic byte is '%' or a literal).",
+ "C14": "Form field names are any printable byte (no quote, no backslash) followed by a concrete suffix in the quick tier (the thorough tier, which has more form values and query parameters, keeps alphanumeric names: the bounds that ran clean in time); fmt.Sprintf formats containing symbolic bytes are modelled (each symbolic byte is '%' or a literal).",
  "C15": "Also: structs with 1..2 embedded components (value or pointer) over 4 base structs, generated functions executed with symbolic draws (HC15_execEmbedded).",
  "C16": "Also: type ( ... ) groups of 2..3 structs with a block-level comment (none, plain, SQL directive, QUERY directive) and per-struct comments, through the real parser: each table carries exactly the directives of its own declaration (HC16_groupedDeclarations).",
  "C17": "The packages planned for the engine's packages.Load model are built by the real parser and type checker (Syntax, Fset, Types); the catalogue includes generated files with a //line directive above or below the package clause.",
